@@ -70,7 +70,8 @@ def field_world(rng, S, ET):
 
 def escaping_world(rng, S):
     """attribute values and documentation text that need XML escaping (both quote kinds, &, <, >, non-ASCII)"""
-    pieces = ['"', "'", '&', '<', '>', 'a', 'it', '&amp;', '\u00e9', '\u2028', ']]>', '=', '\\']
+    pieces = ['"', "'", '&', '<', '>', 'a', 'it', '&amp;', '\u00e9', '\u2028', ']]>', '=', '\\',
+              '\U0001F600', '\U0001D11E', '\U00020000', '\uFFFD', '\uE000']      # code points beyond the basic plane are XML characters too
     syms, comments = [], []
     for i in range(rng.randint(1, 4)):
         name = 'foo_esc_%d' % i
@@ -231,6 +232,51 @@ def main(tier, seed):
                 cur = nxt
             else:
                 stable_docs.append((what, cur))
+        # GIR files are not only what this writer wrote: documentation text of a stable document gets characters of every kind
+        # XML 1.0 allows in text (beyond the basic plane, private use, the replacement character); the cycle must keep them
+        extra = ['\U0001D11E', '\U0001F600 smile', '\U00020000', '\uE000\uFFFD', 'caf\u00e9 \u4e2d']
+        nd = 0
+        for what, xml in stable_docs:
+            if '</doc>' not in xml or len(xml) > 400000:
+                continue
+            nd += 1
+            if nd > (4 if tier == 'quick' else 40):
+                break
+            ins = extra[nd % len(extra)]
+            doc2 = xml.replace('</doc>', ' ' + ins + '</doc>', 1)
+            pz = os.path.join(tmp, 'docx.gir')
+            open(pz, 'w', encoding='utf-8').write(doc2)
+            ck.count_case(dict(document=what, inserted=ins), nontrivial=True, kind='text-of-every-plane')
+            try:
+                back = passthrough(pz)
+            except BaseException as e:      # noqa
+                ck.failing_input('the GIR reader or writer raises %s on documentation text with %r' % (type(e).__name__, ins),
+                                 dict(document=what, inserted=ins, gir=doc2[:60000]), detail=repr(e))
+                continue
+            # the longer text may make the writer lay the element's attributes out on several lines: compared are the texts of
+            # all elements as an XML reader gives them, and the written file must then cycle to itself
+            def texts(x):
+                return [(e.tag, e.text) for e in ET.fromstring(x.encode('utf-8')).iter() if e.text and e.text.strip()]
+            try:
+                t1, t2 = texts(doc2), texts(back)
+            except ET.ParseError as e:
+                ck.failing_input('a GIR written back after reading is not well-formed XML', dict(document=what, inserted=ins), detail=repr(e))
+                continue
+            if t1 != t2:
+                diff = next(((a, b) for a, b in zip(t1, t2) if a != b), (t1[len(t2):][:1], t2[len(t1):][:1]))
+                ck.failing_input('reading a GIR and writing it back changes documentation text',
+                                 dict(document=what, inserted_into_first_doc_element=ins, gir=doc2[:60000]), detail=dict(first_difference=diff))
+                continue
+            open(pz, 'w', encoding='utf-8').write(back)
+            try:
+                back2 = passthrough(pz)
+            except BaseException as e:      # noqa
+                ck.failing_input('the GIR reader or writer raises %s on documentation text with %r' % (type(e).__name__, ins),
+                                 dict(document=what, inserted=ins, gir=back[:60000]), detail=repr(e))
+                continue
+            if back2 != back:
+                ck.failing_input('reading a GIR and writing it back does not give identical XML (itself produced by a write)',
+                                 dict(document=what, inserted=ins, gir=back[:60000]), detail=first_diff(back, back2))
         # files read one after the other by ONE reader object (GIRParser.parse is public and may be called again): each must be
         # written back as a fresh reader writes it - nothing of an earlier file may stay behind in the reader
         from giscanner.girparser import GIRParser
@@ -255,6 +301,20 @@ def main(tier, seed):
                 ck.failing_input('a GIR read by a reader that has read other files before is not written back unchanged',
                                  dict(read_before=[w for w, _ in seq[:k]], document=what, gir=xml[:60000]), detail=first_diff(xml, again))
                 break
+            # ... and what was read earlier does not change when the reader goes on to another file
+            if prev is not None:
+                pwhat, pxml, pns = prev
+                try:
+                    pagain = GIRWriter(pns).get_encoded_xml().decode('utf-8')
+                except BaseException as e:      # noqa
+                    ck.failing_input('the GIR writer raises %s on a namespace read before the reader read another file' % type(e).__name__,
+                                     dict(document=pwhat, read_afterwards=what), detail=repr(e))
+                    break
+                if pagain != pxml:
+                    ck.failing_input('a namespace read from a GIR changes when the same reader reads another file afterwards',
+                                     dict(document=pwhat, read_afterwards=what, gir=pxml[:60000]), detail=first_diff(pxml, pagain))
+                    break
+            prev = (what, xml, reader.get_namespace())
         # the hand-written GIR files of gir/: their layout is not the writer's, so the first write normalises it; what the
         # namespace element says must survive, and the file the writer produced must then cycle to itself
         for f in sorted(glob.glob(os.path.join(REPO, 'gir', '*.gir'))):
